@@ -232,6 +232,7 @@ impl Writer {
         let mut revert_info = BatchRevertInfo {
             original_offset: *cur_offset,
             allocated_block_ids: Vec::new(),
+            pending_seals: Vec::new(),
         };
 
         // Build write plan: (Block, in_block_offset, batch_index)
@@ -267,7 +268,7 @@ impl Writer {
                     match unsafe { self.allocator.alloc_block(need.max(DEFAULT_BLOCK_SIZE)) } {
                         Ok(b) => b,
                         Err(e) => {
-                            revert_info.rollback(&mut *cur_offset);
+                            revert_info.rollback(&mut *cur_offset, &self.reader, &self.col);
                             return Err(e);
                         }
                     };
@@ -276,14 +277,17 @@ impl Writer {
                 sealed.used = planning_offset;
                 if let Err(e) = sealed.mmap.flush() {
                     FileStateTracker::set_block_unlocked(&new_block.file_path);
-                    revert_info.rollback(&mut *cur_offset);
+                    revert_info.rollback(&mut *cur_offset, &self.reader, &self.col);
                     return Err(e);
                 }
                 FileStateTracker::set_block_unlocked(&block.file_path);
-                // see Writer::write: empty blocks are not published
-                if sealed.used > 0 {
-                    let _ = self.reader.append_block_to_chain(&self.col, sealed);
-                }
+                // published after the batch's writes (or its rollback), see BatchRevertInfo
+                let used_before = if revert_info.pending_seals.is_empty() {
+                    revert_info.original_offset
+                } else {
+                    0
+                };
+                revert_info.pending_seals.push((sealed, used_before));
                 #[cfg(walrus_verif)]
                 crate::wal::verif::sched_point("bw_after_seal");
 
@@ -357,7 +361,7 @@ impl Writer {
                     }
                 }
 
-                revert_info.rollback(&mut *cur_offset);
+                revert_info.rollback(&mut *cur_offset, &self.reader, &self.col);
                 return Err(e);
             }
         }
@@ -371,7 +375,7 @@ impl Writer {
                     for (w_blk, w_off, _) in write_plan.iter() {
                         let _ = w_blk.zero_range(*w_off, PREFIX_META_SIZE as u64);
                     }
-                    revert_info.rollback(&mut *cur_offset);
+                    revert_info.rollback(&mut *cur_offset, &self.reader, &self.col);
                     return Err(e);
                 }
                 fsynced.insert(blk.file_path.clone());
@@ -380,6 +384,7 @@ impl Writer {
 
         #[cfg(walrus_verif)]
         crate::wal::verif::sched_point("bw_before_publish");
+        revert_info.publish_sealed(&self.reader, &self.col);
         // NOW update the writer's offset to make data visible to readers
         *cur_offset = planning_offset;
 
@@ -432,7 +437,7 @@ impl Writer {
 
             // Same limit (and error) as Block::write on the sequential path.
             if meta_bytes.len() > PREFIX_META_SIZE - 2 {
-                revert_info.rollback(cur_offset);
+                revert_info.rollback(cur_offset, &self.reader, &self.col);
                 return Err(std::io::Error::new(
                     std::io::ErrorKind::InvalidData,
                     "metadata too large",
@@ -455,7 +460,7 @@ impl Writer {
                 io_uring::types::Fd(fd_backend.file().as_raw_fd())
             } else {
                 // Rollback and fail
-                revert_info.rollback(cur_offset);
+                revert_info.rollback(cur_offset, &self.reader, &self.col);
                 return Err(std::io::Error::new(
                     std::io::ErrorKind::Unsupported,
                     "batch writes require FD backend",
@@ -560,7 +565,7 @@ impl Writer {
                     }
 
                     // Rollback
-                    revert_info.rollback(cur_offset);
+                    revert_info.rollback(cur_offset, &self.reader, &self.col);
                     return Err(std::io::Error::new(
                         std::io::ErrorKind::Other,
                         "batch write failed, rolled back",
@@ -576,7 +581,7 @@ impl Writer {
                             for (w_blk, w_off, _) in write_plan.iter() {
                                 let _ = w_blk.zero_range(*w_off, PREFIX_META_SIZE as u64);
                             }
-                            revert_info.rollback(cur_offset);
+                            revert_info.rollback(cur_offset, &self.reader, &self.col);
                             return Err(e);
                         }
                         fsynced.insert(blk.file_path.clone());
@@ -585,6 +590,7 @@ impl Writer {
 
                 #[cfg(walrus_verif)]
                 crate::wal::verif::sched_point("bw_before_publish");
+                revert_info.publish_sealed(&self.reader, &self.col);
                 // NOW update the writer's offset to make data visible to readers
                 *cur_offset = planning_offset;
 
@@ -611,7 +617,7 @@ impl Writer {
                 }
 
                 // Rollback
-                revert_info.rollback(cur_offset);
+                revert_info.rollback(cur_offset, &self.reader, &self.col);
                 Err(e)
             }
         }
@@ -621,15 +627,38 @@ impl Writer {
 struct BatchRevertInfo {
     original_offset: u64,
     allocated_block_ids: Vec<u64>,
+    /// Blocks sealed while planning this batch, with the `used` size they had before the batch
+    /// planned entries into them. They are published to the reader chain only once the fate of
+    /// the batch is known: a reader must never find a sealed block whose entries are still
+    /// being written (it would take the unwritten space for rolled-back space and skip real
+    /// entries), and a failed batch must not leave its rolled-back space inside a sealed block.
+    pending_seals: Vec<(Block, u64)>,
 }
 
 impl BatchRevertInfo {
-    /// Undo the offset bookkeeping of a failed batch. If planning moved the writer into a
-    /// freshly allocated block, the earlier blocks are already sealed and published to the
-    /// readers, and that new block stays the active (still locked) one: it restarts at
-    /// offset 0. Restoring the old block's offset there would leave a zeroed gap at the
-    /// start of the block, behind which no reader and no recovery scan ever looks.
-    fn rollback(&self, cur_offset: &mut u64) {
+    /// The batch is complete on disk: publish the blocks sealed during planning (including the
+    /// batch's entries).
+    fn publish_sealed(&self, reader: &Reader, col: &str) {
+        for (sealed, _) in self.pending_seals.iter() {
+            if sealed.used > 0 {
+                let _ = reader.append_block_to_chain(col, sealed.clone());
+            }
+        }
+    }
+
+    /// Undo a failed batch. Blocks sealed during planning are published without the space the
+    /// batch had planned into them. If planning moved the writer into a freshly allocated
+    /// block, that block stays the active (still locked) one and restarts at offset 0:
+    /// restoring the old block's offset there would leave a zeroed gap at the start of the
+    /// block, behind which no reader and no recovery scan ever looks.
+    fn rollback(&self, cur_offset: &mut u64, reader: &Reader, col: &str) {
+        for (sealed, used_before) in self.pending_seals.iter() {
+            if *used_before > 0 {
+                let mut b = sealed.clone();
+                b.used = *used_before;
+                let _ = reader.append_block_to_chain(col, b);
+            }
+        }
         *cur_offset = if self.allocated_block_ids.is_empty() {
             self.original_offset
         } else {
